@@ -1,8 +1,102 @@
 package main
 
+import (
+	"go/ast"
+)
+
 // regenerated facts of the "frontend" family (C41 C42 C43 C44)
 
 func init() { families = append(families, factsFrontend) }
 
+// feCaseBody returns the statements of the type-switch case of fd whose type list contains typ.
+func feCaseBody(fd *ast.FuncDecl, typ string) []ast.Stmt {
+	var res []ast.Stmt
+	if fd == nil || fd.Body == nil {
+		return nil
+	}
+	ast.Inspect(fd.Body, func(n ast.Node) bool {
+		ts, ok := n.(*ast.TypeSwitchStmt)
+		if !ok {
+			return true
+		}
+		for _, s := range ts.Body.List {
+			cc, ok := s.(*ast.CaseClause)
+			if !ok {
+				continue
+			}
+			for _, t := range cc.List {
+				if text(t) == typ {
+					res = cc.Body
+				}
+			}
+		}
+		return false
+	})
+	return res
+}
+
+// feStmts renders statements one per entry; for/if statements are flattened into
+// "for <init>; <cond>; <post> {", body…, "}" so that every condition is a separate line.
+func feStmts(list []ast.Stmt) []string {
+	var out []string
+	for _, s := range list {
+		switch st := s.(type) {
+		case *ast.ForStmt:
+			h := "for "
+			if st.Init != nil {
+				h += text(st.Init)
+			}
+			h += "; "
+			if st.Cond != nil {
+				h += text(st.Cond)
+			}
+			h += "; "
+			if st.Post != nil {
+				h += text(st.Post)
+			}
+			out = append(out, h+" {")
+			out = append(out, feStmts(st.Body.List)...)
+			out = append(out, "}")
+		case *ast.IfStmt:
+			h := "if "
+			if st.Init != nil {
+				h += text(st.Init) + "; "
+			}
+			out = append(out, h+text(st.Cond)+" {")
+			out = append(out, feStmts(st.Body.List)...)
+			if st.Else != nil {
+				out = append(out, "} else {")
+				if b, ok := st.Else.(*ast.BlockStmt); ok {
+					out = append(out, feStmts(b.List)...)
+				} else {
+					out = append(out, feStmts([]ast.Stmt{st.Else})...)
+				}
+			}
+			out = append(out, "}")
+		default:
+			out = append(out, text(s))
+		}
+	}
+	return out
+}
+
+func feBody(fd *ast.FuncDecl) []string {
+	if fd == nil || fd.Body == nil {
+		return nil
+	}
+	return feStmts(fd.Body.List)
+}
+
 func factsFrontend() {
+	// ---- C41
+	f := parse("pkg/queryfrontend/split_by_interval.go")
+	sq := fn(f, "", "splitQuery")
+	emitList("splitRangeCase", "pkg/queryfrontend/split_by_interval.go splitQuery: case *ThanosQueryRangeRequest, statement by statement",
+		feStmts(feCaseBody(sq, "*ThanosQueryRangeRequest")))
+	emitList("splitLabelsCase", "pkg/queryfrontend/split_by_interval.go splitQuery: case SplitRequest, statement by statement",
+		feStmts(feCaseBody(sq, "SplitRequest")))
+	emitList("nextIntervalBoundaryBody", "pkg/queryfrontend/split_by_interval.go nextIntervalBoundary",
+		feBody(fn(f, "", "nextIntervalBoundary")))
+	g := parse("internal/cortex/querier/queryrange/step_align.go")
+	emitList("stepAlignBody", "internal/cortex/querier/queryrange/step_align.go stepAlign.Do", feBody(fn(g, "stepAlign", "Do")))
 }
